@@ -80,8 +80,9 @@ func (u *Unit) evalRet(e *SExpr, env *Env) Val {
 func (u *Unit) tryEvalBool(e *SExpr, env *Env) (t Term, ok bool) {
 	defer func() {
 		if r := recover(); r != nil {
-			if _, is := r.(specError); is {
+			if se, is := r.(specError); is {
 				ok = false
+				u.lastSpecErr = se.msg
 				return
 			}
 			if _, is := r.(missingCall); is {
@@ -220,4 +221,21 @@ func (u *Unit) specPointerType(e *SExpr, env *Env) types.Type {
 		u.specFail("%s is not a type", e.String())
 	}
 	return types.NewPointer(tn.Type())
+}
+
+// wildGhost returns the heap of a wildcard ghost field and the key under which x's abstract state
+// is stored.
+func (u *Unit) wildGhost(st *State, g GhostField, x Val) (Term, Term) {
+	h := u.heap(st, "GH:*."+g.Field, arraySort("Iface", g.Sort))
+	return h, u.ghostKey(x)
+}
+
+func (u *Unit) ghostKey(x Val) Term {
+	if x.T.Sort == "Iface" {
+		return x.T
+	}
+	if x.Typ == nil {
+		u.specFail("ghost state of an untyped value")
+	}
+	return u.boxIface(u.termOf(x), x.Typ)
 }
